@@ -83,6 +83,7 @@ type GoPanic struct {
 	Kind string // "index", "nil", "typeassert", "explicit", "divzero", "slice", "budget", "unsupported"
 	Msg  string
 	Pos  string
+	Val  Value // the argument of an explicit panic(v), for recover()
 }
 
 func (p *GoPanic) Error() string { return fmt.Sprintf("%s: %s @ %s", p.Kind, p.Msg, p.Pos) }
